@@ -17,7 +17,7 @@ import json,re
 m=json.load(open('$d/meta.json'))
 c=m['demo_cmd']
 c=re.sub(r'/tmp/wt_C\d+', '$wt', c)
-c=re.sub(r'/tmp/mut_C\d+/m\d+', '$d', c)
+c=re.sub(r'/tmp/mutB?_C\d+/m\d+', '$d', c)
 print(c)")
 echo "demo: $cmd" >> $out
 # without the patch
